@@ -10,33 +10,75 @@ import (
 )
 
 var (
-	tagB    = vtt.Tag{Name: "b"}
-	tagI    = vtt.Tag{Name: "i"}
-	tagU    = vtt.Tag{Name: "u"}
-	tagRed  = vtt.Tag{Name: "c", Classes: []string{"red"}}
-	tagAB   = vtt.Tag{Name: "c", Classes: []string{"a", "b"}}
-	tagLang = vtt.Tag{Name: "lang", Annotation: "en"}
-	tagHy   = vtt.Tag{Name: "c", Classes: []string{"bg-blue", "loud2", "\u00e9t\u00e9"}} // class names are not \w+ only
+	tagB     = vtt.Tag{Name: "b"}
+	tagI     = vtt.Tag{Name: "i"}
+	tagU     = vtt.Tag{Name: "u"}
+	tagRed   = vtt.Tag{Name: "c", Classes: []string{"red"}}
+	tagAB    = vtt.Tag{Name: "c", Classes: []string{"a", "b"}}
+	tagLang  = vtt.Tag{Name: "lang", Annotation: "en"}
+	tagHy    = vtt.Tag{Name: "c", Classes: []string{"bg-blue", "loud2", "\u00e9t\u00e9"}} // class names are not \w+ only
 	tagLang2 = vtt.Tag{Name: "lang", Annotation: "en-GB x"}
 
 	allTags   = []vtt.Tag{tagB, tagI, tagU, tagRed, tagAB, tagLang, tagHy, tagLang2}
 	allTexts  = []string{"x", "a b", " lead", "trail ", "7", "&", "<", "a<b", "&amp;", "a\u00a0b", "\u00e9", "e\u0301", "\U0001F600", "a>b", "a\tb", "\"q\"", "1 > 0 -> ok"}
 	allStarts = []int64{1000, 0, 1, 999, 1500, 59999, 60000, 3599999, 3600000, 35999999, 36000000, 86399999, 359998000, 360000000, 3599998000}
-	tsmaps    = []*vtt.TSMap{nil, {Local: 0, MpegTS: 900000}, {Local: 1000, MpegTS: 180000}, {Local: 3600000, MpegTS: 8589934591}, {Local: 2000, MpegTS: 0}, {Local: 0, MpegTS: 0}, {Local: 10000, MpegTS: 900000}} // the last two: a map that is set but shifts nothing
-	styleBlks = [][]string{{"::cue { color: red }"}, {"::cue(b) {", "  color: peachpuff;", "}"}}
+	tsmaps    = []*vtt.TSMap{nil, {Local: 0, MpegTS: 900000}, {Local: 1000, MpegTS: 180000}, {Local: 3600000, MpegTS: 8589934591}, {Local: 2000, MpegTS: 0}, {Local: 0, MpegTS: 0}, {Local: 10000, MpegTS: 900000}, // the last two: a map that is set but shifts nothing
+		{Local: 360000000, MpegTS: 90000}, {Local: 59999, MpegTS: 1}, {Local: 3599999999, MpegTS: 8589934591}} // wide: 3-digit hours, ms/second boundary with a 1-tick clock, both at their maximum
+	styleBlks = [][]string{{"::cue { color: red }"}, {"::cue(b) {", "  color: peachpuff;", "}"},
+		{"::cue(c.red) { color: #ff0000; }", "::cue(v[voice=\"Bob\"]) { color: lime }"},               // wide: two one-line rules, '#', '[', '=', quotes
+		{"::cue {", "background: rgba(0,0,0,0.5);", "}", "::cue(.\u00e9t\u00e9) { font-size: 120% }"}} // wide: a rule after a closing brace line, non-ASCII
+
+	// ---- wide value tables (stages wide*, core S/R/V/E/K/I/M, many) ----
+	tagC     = vtt.Tag{Name: "c"}                                        // class span without classes
+	tagBLoud = vtt.Tag{Name: "b", Classes: []string{"loud"}}             // classes on a non-c tag
+	tagUS    = vtt.Tag{Name: "c", Classes: []string{"bg_blue", "white"}} // the specification's own colour classes: underscore
+	tagDig   = vtt.Tag{Name: "c", Classes: []string{"1"}}                // digits-only class
+	tagRuby  = vtt.Tag{Name: "ruby"}
+	tagRt    = vtt.Tag{Name: "rt"}
+	tagLang3 = vtt.Tag{Name: "lang", Annotation: "zh-Hant-TW"}
+	wideTags = []vtt.Tag{tagB, tagI, tagU, tagRed, tagAB, tagLang, tagHy, tagLang2, tagC, tagBLoud, tagUS, tagDig, tagRuby, tagRt, tagLang3}
+	// coreW keeps 8 tags (cost) but swaps in the wide ones that interact with the writer's neighbour diff: same name, different classes / none
+	wTags     = []vtt.Tag{tagB, tagI, tagRed, tagAB, tagLang, tagC, tagBLoud, tagRuby}
+	wideTexts = append(append([]string{}, allTexts...), "42", "\u200f\u05e9\u05dc\u05d5\u05dd", "a\u200eb", "&gt;", "&#38;", "NOTE x", "STYLES", "Region: n")
+	// ms digit boundaries (.010 .100), 4-digit hours
+	wideStarts = append(append([]int64{}, allStarts...), 10, 100, 3600000000, 35999999000)
+	longVoice  = strings.Repeat("Nebuchadnezzar ", 20) + "II" // 302 bytes
+	wideVoices = []string{"", "Bob", "Bob Smith", "Dr. Who", "Zo\u00eb 2", "R&D", "AC/DC", "O'Neil", "bob", "BOB", longVoice}
+
+	alignVals    = []string{"left", "center", "start", "end", "right", "middle"}
+	lineVals     = []string{"10%", "-1", "0", "100%", "10%,start", "10.5%", "5"}
+	positionVals = []string{"10%,line-left", "50%", "0%", "100%", "50%,center"}
+	sizeVals     = []string{"35%", "100%", "0%", "33.3%"}
+	verticalVals = []string{"rl", "lr"}
+
+	regionIDs   = [][]string{{"fred", "bill"}, {"r1", "r10"}, {"top-left_2", "r\u00e9gi\u00f3n"}, {"id", "0"}} // prefix pair; hyphen/underscore/digit, non-ASCII; a setting name, a number
+	rWidthVals  = []string{"40%", "0%", "100%", "33.3%"}
+	rLinesVals  = []int{3, 1, 100}
+	rAnchorVals = []string{"0%,100%", "0%,0%", "100%,100%", "12.5%,50%"}
+	rViewVals   = []string{"10%,90%", "0%,0%", "100%,100%", "12.5%,50%"}
+
+	commentKinds = [][]string{nil, {"this is a comment"}, {"first line", "second line"},
+		{"42"}, {"caf\u00e9 \u2013 \u00fcn\u00ef", "x: y=z"}, {"a", "42", "b c"}} // wide: looks like an identifier; non-ASCII, ':' and '='; three lines with a number in the middle
 )
 
-const maxMs = 3599999999 // 999:59:59.999
+const (
+	maxMs  = 3599999999  // 999:59:59.999
+	maxMs4 = 35999999999 // 9999:59:59.999
+)
+
+const oldRend = "eol bom shorttime headertext blank settingssep settingsrev eof lazy leaveopen tsbeforetags closevoice voiceclass noteblocks regionblocks maprev idpad"
 
 type profile struct {
 	ncues     []int
 	starts    []int64
-	ends      []int // 0 +1s, 1 +1ms, 2 +500ms, 3 max
-	ids       []int // 0 k+1, 1 absent, 2 42
-	comments  []int // number of comment lines
-	settings  int   // 0 none, 1 present/absent per setting, 2 two values per setting
+	ends      []int // 0 +1s, 1 +1ms, 2 +500ms, 3 999:59:59.999, 4 9999:59:59.999, 5 = start (writer only: not well-formed)
+	ids       []int // 0 k+1, 1 absent, 2 42, 3 k+2 (the number of the NEXT cue), 4 2147483647, 5 4294967296, 6 100
+	comments  []int // index into commentKinds
+	settings  int   // 0 none, 1 present/absent per setting, 2 two values per setting, 3 the whole value table of every setting
 	nregions  []int
-	regAttrs  bool // every subset of region attributes
+	regAttrs  bool  // every subset of region attributes
+	regVals   bool  // with regAttrs: every attribute ranges over its whole value table
+	regIDs    []int // index into regionIDs
 	regionRef bool
 	nstyles   []int
 	styleKind []int
@@ -47,9 +89,10 @@ type profile struct {
 	tags      []vtt.Tag
 	depth     int
 	walk      bool  // stacks form a properly nested walk (else arbitrary per run)
-	ts        []int // 0 none, 1 start+400ms, 2 start+1ms
+	ts        []int // 0 none, 1 start+400ms, 2 start+1ms, 3 end-1ms, 4 = start, 5 = end (4, 5 writer only: not well-formed)
 	texts     []string
 	rend      string // space separated rendering choice points that are explored ("*" = all)
+	wideRend  bool   // extended option lists at the rendering choice points that existed before the widening
 }
 
 func fullProfile(thorough bool) profile {
@@ -57,7 +100,7 @@ func fullProfile(thorough bool) profile {
 		ncues: []int{1, 0, 2}, starts: allStarts, ends: []int{0, 1, 2, 3}, ids: []int{0, 1, 2}, comments: []int{0, 1, 2},
 		settings: 2, nregions: []int{0, 1, 2}, regAttrs: true, regionRef: true, nstyles: []int{0, 1, 2}, styleKind: []int{0, 1},
 		tsmaps: []int{0, 1, 2, 3, 4, 5, 6}, nlines: []int{1, 2, 0}, voices: []string{"", "Bob", "Bob Smith"}, nruns: []int{1, 2},
-		tags: allTags, depth: 3, walk: true, ts: []int{0, 1, 2}, texts: allTexts, rend: "*",
+		tags: allTags, depth: 3, walk: true, ts: []int{0, 1, 2}, texts: allTexts, rend: oldRend, regIDs: []int{0},
 	}
 	if thorough {
 		p.ncues = []int{1, 0, 2, 3}
@@ -70,7 +113,7 @@ func fullProfile(thorough bool) profile {
 func base() profile {
 	return profile{ncues: []int{1}, starts: []int64{1000}, ends: []int{0}, ids: []int{0}, comments: []int{0}, nregions: []int{0},
 		nstyles: []int{0}, styleKind: []int{0}, tsmaps: []int{0}, nlines: []int{1}, voices: []string{""}, nruns: []int{1}, walk: true,
-		ts: []int{0}, texts: []string{"x"}}
+		ts: []int{0}, texts: []string{"x"}, regIDs: []int{0}}
 }
 
 // core products A1/A2: text structure (runs resp. lines x nested tag walks x inline timestamps x voice x tag rendering)
@@ -169,7 +212,7 @@ func coreC2() profile {
 func coreW(thorough bool) profile {
 	p := base()
 	p.nruns = []int{2}
-	p.tags = allTags
+	p.tags = wTags
 	p.depth = 2
 	p.walk = false
 	p.ts = []int{0, 1}
@@ -197,9 +240,22 @@ func gen(c *explore.C, p profile) Case {
 		d.Styles = append(d.Styles, append([]string(nil), styleBlks[explore.Pick(c, "stylekind", p.styleKind...)]...))
 	}
 	nr := explore.Pick(c, "nregions", p.nregions...)
+	var rids []string
+	if nr > 0 {
+		rids = regionIDs[explore.Pick(c, "regionids", p.regIDs...)]
+	}
 	for k := 0; k < nr; k++ {
-		r := vtt.Region{ID: []string{"fred", "bill"}[k]}
-		if p.regAttrs {
+		r := vtt.Region{ID: rids[k]}
+		switch {
+		case p.regAttrs && p.regVals:
+			r.Width = explore.Pick(c, "r.width", append([]string{""}, rWidthVals...)...)
+			r.Lines = explore.Pick(c, "r.lines", append([]int{0}, rLinesVals...)...)
+			r.RegionAnchor = explore.Pick(c, "r.regionanchor", append([]string{""}, rAnchorVals...)...)
+			r.ViewportAnchor = explore.Pick(c, "r.viewportanchor", append([]string{""}, rViewVals...)...)
+			if c.Bool("r.scroll") {
+				r.Scroll = "up"
+			}
+		case p.regAttrs:
 			if c.Bool("r.width") {
 				r.Width = "40%"
 			}
@@ -215,7 +271,7 @@ func gen(c *explore.C, p profile) Case {
 			if c.Bool("r.scroll") {
 				r.Scroll = "up"
 			}
-		} else {
+		default:
 			r.Width, r.Lines, r.RegionAnchor, r.ViewportAnchor, r.Scroll = "40%", 3, "0%,100%", "10%,90%", "up"
 		}
 		d.Regions = append(d.Regions, r)
@@ -233,38 +289,50 @@ func gen(c *explore.C, p profile) Case {
 			cue.End = cue.Start + 500
 		case 3:
 			cue.End = maxMs
+			if cue.Start >= maxMs {
+				cue.End = maxMs4
+			}
+		case 4:
+			cue.End = maxMs4
+		case 5:
+			cue.End = cue.Start
 		}
-		if cue.End > maxMs {
-			cue.End = maxMs
+		if cue.End > maxMs4 {
+			cue.End = maxMs4
 		}
 		switch explore.Pick(c, "id", p.ids...) {
 		case 0:
 			cue.ID = k + 1
 		case 2:
 			cue.ID = 42
+		case 3:
+			cue.ID = k + 2
+		case 4:
+			cue.ID = 2147483647
+		case 5:
+			cue.ID = 4294967296
+		case 6:
+			cue.ID = 100
 		}
-		switch explore.Pick(c, "comments", p.comments...) {
-		case 1:
-			cue.Comments = []string{"this is a comment"}
-		case 2:
-			cue.Comments = []string{"first line", "second line"}
-		}
-		pick := func(site string, vals ...string) string {
+		cue.Comments = append([]string(nil), commentKinds[explore.Pick(c, "comments", p.comments...)]...)
+		pick := func(site string, vals []string) string {
 			switch p.settings {
 			case 1:
 				if c.Bool(site) {
 					return vals[0]
 				}
 			case 2:
+				return explore.Pick(c, site, append([]string{""}, vals[:2]...)...)
+			case 3:
 				return explore.Pick(c, site, append([]string{""}, vals...)...)
 			}
 			return ""
 		}
-		cue.Settings.Align = pick("s.align", "left", "center")
-		cue.Settings.Line = pick("s.line", "10%", "-1")
-		cue.Settings.Position = pick("s.position", "10%,line-left", "50%")
-		cue.Settings.Size = pick("s.size", "35%", "100%")
-		cue.Settings.Vertical = pick("s.vertical", "rl", "lr")
+		cue.Settings.Align = pick("s.align", alignVals)
+		cue.Settings.Line = pick("s.line", lineVals)
+		cue.Settings.Position = pick("s.position", positionVals)
+		cue.Settings.Size = pick("s.size", sizeVals)
+		cue.Settings.Vertical = pick("s.vertical", verticalVals)
 		if p.regionRef && nr > 0 {
 			if i := c.Choose("regionref", nr+1); i > 0 {
 				cue.Region = d.Regions[i-1].ID
@@ -298,6 +366,14 @@ func gen(c *explore.C, p profile) Case {
 					run.TS = cue.Start + 400
 				case 2:
 					run.TS = cue.Start + 1
+				case 3:
+					if cue.End-1 > cue.Start {
+						run.TS = cue.End - 1
+					}
+				case 4:
+					run.TS = cue.Start
+				case 5:
+					run.TS = cue.End
 				}
 				run.Text = explore.Pick(c, "text", p.texts...)
 				line.Runs = append(line.Runs, run)
@@ -306,6 +382,10 @@ func gen(c *explore.C, p profile) Case {
 		}
 		d.Cues = append(d.Cues, cue)
 	}
+	return Case{Doc: d, Render: genRender(c, p)}
+}
+
+func genRender(c *explore.C, p profile) vtt.Render {
 	r := vtt.DefaultRender()
 	on := func(site string) bool {
 		return p.rend == "*" || strings.Contains(" "+p.rend+" ", " "+site+" ")
@@ -320,7 +400,11 @@ func gen(c *explore.C, p profile) Case {
 		r.ShortTime = c.Bool("shorttime")
 	}
 	if on("headertext") {
-		r.HeaderText = explore.Pick(c, "headertext", "", " - title", "\tsome text")
+		opts := []string{"", " - title", "\tsome text"}
+		if p.wideRend {
+			opts = append(opts, " \u2013 T\u00edtulo 2", " WEBVTT")
+		}
+		r.HeaderText = explore.Pick(c, "headertext", opts...)
 	}
 	if on("blank") {
 		r.Blank = explore.Pick(c, "blank", 1, 2)
@@ -361,33 +445,277 @@ func gen(c *explore.C, p profile) Case {
 	if on("idpad") {
 		r.IDPad = explore.Pick(c, "idpad", 0, 1, 2)
 	}
-	return Case{Doc: d, Render: r}
+	// ---- choice points added by the widening ----
+	if on("shortonly") {
+		r.ShortOnly = c.Choose("shortonly", 4)
+	}
+	if on("hourpad") {
+		r.HourPad = explore.Pick(c, "hourpad", 0, 1)
+	}
+	if on("arrowsep") {
+		r.ArrowSep = explore.Pick(c, "arrowsep", " ", "\t", "  ")
+	}
+	if on("notesep") {
+		r.NoteSep = explore.Pick(c, "notesep", " ", "\t", "  ", "\n")
+	}
+	if on("emptynote") {
+		r.EmptyNote = c.Bool("emptynote")
+	}
+	if on("voiceform") {
+		r.VoiceForm = c.Choose("voiceform", 4)
+	}
+	if on("entity") {
+		r.Entity = c.Choose("entity", 3)
+	}
+	if on("headerlines") {
+		r.HeaderLines = c.Bool("headerlines")
+	}
+	if on("idtext") {
+		r.IDText = explore.Pick(c, "idtext", "", "intro")
+	}
+	if on("regionrev") {
+		r.RegionRev = c.Bool("regionrev")
+	}
+	return r
+}
+
+// many-cue documents: the structure of every cue is fixed by its position, the choice points are the cue count
+// (digit-count boundaries of the running number, one past a byte), the identifier scheme and the block layout.
+func genMany(c *explore.C) Case {
+	var d vtt.Doc
+	d.Regions = []vtt.Region{{ID: "fred", Width: "40%"}, {ID: "bill", Lines: 3}}
+	n := explore.Pick(c, "many.ncues", 10, 9, 11, 99, 100, 101, 256, 257, 1000)
+	ids := c.Choose("many.ids", 4) // 0 k+1, 1 absent, 2 n-k (descending), 3 k+2 (always the next cue's number)
+	for k := 0; k < n; k++ {
+		cue := vtt.Cue{Start: int64(k) * 7001, End: int64(k)*7001 + 7000} // crosses the minute and (n = 1000) the hour boundary
+		switch ids {
+		case 0:
+			cue.ID = k + 1
+		case 2:
+			cue.ID = n - k
+		case 3:
+			cue.ID = k + 2
+		}
+		if k%3 == 1 {
+			cue.Comments = []string{fmt.Sprintf("comment %d", k)}
+		}
+		if k%4 == 2 {
+			cue.Region = d.Regions[k/4%2].ID
+		}
+		if k%5 == 3 {
+			cue.Settings.Align = "left"
+		}
+		ln := vtt.Line{Runs: []vtt.Run{{Text: fmt.Sprintf("t%d", k)}}}
+		if k%7 == 4 {
+			ln.Voice = "Bob"
+			ln.Runs = append(ln.Runs, vtt.Run{Text: "x", Tags: []vtt.Tag{tagB}, TS: cue.Start + 400})
+		}
+		cue.Lines = []vtt.Line{ln}
+		d.Cues = append(d.Cues, cue)
+	}
+	p := base()
+	p.rend = "eol blank idpad"
+	return Case{Doc: d, Render: genRender(c, p)}
+}
+
+// ---------- core products and balls added by the value-domain widening ----------
+
+// wideProfile: every value table and every rendering choice point at once (deviation ball only).
+func wideProfile(write bool) profile {
+	p := profile{
+		ncues: []int{1, 0, 2}, starts: wideStarts, ends: []int{0, 1, 2, 3, 4}, ids: []int{0, 1, 2, 3, 4, 5, 6}, comments: []int{0, 1, 2, 3, 4, 5},
+		settings: 3, nregions: []int{0, 1, 2}, regAttrs: true, regVals: true, regIDs: []int{0, 1, 2, 3}, regionRef: true,
+		nstyles: []int{0, 1, 2}, styleKind: []int{0, 1, 2, 3}, tsmaps: []int{0, 1, 2, 3, 4, 5, 6, 7, 8, 9}, nlines: []int{1, 2, 0},
+		voices: wideVoices, nruns: []int{1, 2}, tags: wideTags, depth: 3, walk: true, ts: []int{0, 1, 2, 3}, texts: wideTexts,
+		rend: "*", wideRend: true,
+	}
+	if write {
+		p.walk = false
+		p.rend = ""
+		p.ends = []int{0, 1, 2, 3, 4, 5}
+		p.ts = []int{0, 1, 2, 3, 4, 5}
+	}
+	return p
+}
+
+// core product S: every value of every cue setting x setting order x region reference
+func coreS() profile {
+	p := base()
+	p.settings = 3
+	p.nregions = []int{1}
+	p.regionRef = true
+	p.rend = "settingsrev"
+	return p
+}
+
+// core product R1: one region, every value of every attribute x id table x attribute order x reference
+func coreR1() profile {
+	p := base()
+	p.nregions = []int{1}
+	p.regAttrs, p.regVals = true, true
+	p.regIDs = []int{0, 1, 2, 3}
+	p.regionRef = true
+	p.rend = "regionrev"
+	return p
+}
+
+// core product R2: two regions (ids sharing a prefix, ...) x which one the cue refers to x block layout; attributes fixed
+func coreR2() profile {
+	p := base()
+	p.ncues = []int{1, 2}
+	p.nregions = []int{2}
+	p.regIDs = []int{0, 1, 2, 3}
+	p.regionRef = true
+	p.rend = "regionblocks regionrev settingssep eol"
+	return p
+}
+
+// core product V: voices (dot, digits, non-ASCII, '&', '/', apostrophe, case, 300 bytes) on one or two lines x the
+// renderings of a voice tag
+func coreV() profile {
+	p := base()
+	p.nlines = []int{1, 2}
+	p.voices = wideVoices
+	p.rend = "voiceform voiceclass closevoice entity"
+	return p
+}
+
+// core product E: text atoms x the equivalent escapings x one or two runs, bold or plain
+func coreE() profile {
+	p := base()
+	p.nruns = []int{1, 2}
+	p.texts = wideTexts
+	p.tags = []vtt.Tag{tagB}
+	p.depth = 1
+	p.rend = "entity"
+	return p
+}
+
+// core product G: every tag of the wide table nested in every other (depth 2) on one run and its successor
+func coreG() profile {
+	p := base()
+	p.tags = wideTags
+	p.depth = 2
+	p.voices = []string{"", "Bob"}
+	p.rend = "lazy leaveopen"
+	return p
+}
+
+// core product G2: two runs, every tag of the wide table on each (depth 1), kept open or closed in between
+func coreG2() profile {
+	p := base()
+	p.nruns = []int{2}
+	p.tags = wideTags
+	p.depth = 1
+	p.ts = []int{0, 1}
+	p.rend = "lazy tsbeforetags"
+	return p
+}
+
+// core product K: comment values x the forms of a comment block, one or two cues
+func coreK() profile {
+	p := base()
+	p.ncues = []int{1, 2}
+	p.comments = []int{0, 1, 2, 3, 4, 5}
+	p.ids = []int{0, 1}
+	p.rend = "notesep noteblocks emptynote idtext"
+	return p
+}
+
+// core product I: identifier values x leading zeros x non-numeric identifiers, one or two cues, with or without a comment
+func coreI() profile {
+	p := base()
+	p.ncues = []int{1, 2}
+	p.ids = []int{0, 1, 2, 3, 4, 5, 6}
+	p.comments = []int{0, 3}
+	p.rend = "idpad idtext blank"
+	return p
+}
+
+// core product T2: every instant (up to 4-digit hours, .010/.100) x end form x inline timestamp (up to end-1) x which of the
+// timestamps are written without hours x zero-padded hours
+func coreT2() profile {
+	p := base()
+	p.starts = wideStarts
+	p.ends = []int{0, 1, 2, 3, 4}
+	p.ts = []int{0, 1, 2, 3}
+	p.rend = "shorttime shortonly hourpad"
+	return p
+}
+
+// core product T3: the timing line: white space around the arrow x before the settings x time forms x EOL
+func coreT3() profile {
+	p := base()
+	p.starts = []int64{1000, 3600000, 3600000000}
+	p.settings = 1
+	p.rend = "arrowsep settingssep shorttime shortonly hourpad"
+	return p
+}
+
+// core product M: every timestamp map x key order x LOCAL form x header forms
+func coreM() profile {
+	p := base()
+	p.tsmaps = []int{0, 1, 2, 3, 4, 5, 6, 7, 8, 9}
+	p.rend = "maprev shorttime hourpad headertext headerlines bom eol"
+	p.wideRend = true
+	return p
+}
+
+// core product C3: STYLE block contents (all four kinds, up to two blocks) next to regions and a cue identifier
+func coreC3() profile {
+	p := base()
+	p.nstyles = []int{0, 1, 2}
+	p.styleKind = []int{0, 1, 2, 3}
+	p.nregions = []int{0, 1}
+	p.ids = []int{0, 1}
+	p.rend = "blank eol"
+	return p
 }
 
 type stage struct {
-	sub  string
-	p    profile
-	b    int
-	read bool
+	sub      string
+	p        profile
+	b        int
+	read     bool
+	gen      func(*explore.C) Case // overrides gen(x, p)
+	styleVar bool                  // also build the library value with the settings / region attributes on the referenced Style (writer fall-back)
 }
 
 func stages(thorough bool) []stage {
 	bound := 3
 	st := []stage{
-		{"coreA1", coreA(false, thorough), -1, true},
-		{"coreA2", coreA(true, thorough), -1, true},
-		{"coreA3", coreA3(), -1, true},
-		{"coreB1", coreB1(), -1, true},
-		{"coreB2", coreB2(), -1, true},
-		{"coreT", coreT(), -1, true},
-		{"coreC1", coreC1(), -1, true},
-		{"coreC2", coreC2(), -1, true},
-		{"coreW", coreW(thorough), -1, false},
-		{"ball", fullProfile(thorough), bound, true},
-		{"wball", writeBall(thorough), bound, false},
+		{sub: "coreA1", p: coreA(false, thorough), b: -1, read: true},
+		{sub: "coreA2", p: coreA(true, thorough), b: -1, read: true},
+		{sub: "coreA3", p: coreA3(), b: -1, read: true},
+		{sub: "coreB1", p: coreB1(), b: -1, read: true},
+		{sub: "coreB2", p: coreB2(), b: -1, read: true},
+		{sub: "coreT", p: coreT(), b: -1, read: true},
+		{sub: "coreC1", p: coreC1(), b: -1, read: true, styleVar: true},
+		{sub: "coreC2", p: coreC2(), b: -1, read: true},
+		{sub: "coreW", p: coreW(thorough), b: -1},
+		{sub: "coreS", p: coreS(), b: -1, read: true, styleVar: true},
+		{sub: "coreR1", p: coreR1(), b: -1, read: true, styleVar: true},
+		{sub: "coreR2", p: coreR2(), b: -1, read: true},
+		{sub: "coreV", p: coreV(), b: -1, read: true},
+		{sub: "coreE", p: coreE(), b: -1, read: true},
+		{sub: "coreG", p: coreG(), b: -1, read: true},
+		{sub: "coreG2", p: coreG2(), b: -1, read: true},
+		{sub: "coreK", p: coreK(), b: -1, read: true},
+		{sub: "coreI", p: coreI(), b: -1, read: true},
+		{sub: "coreT2", p: coreT2(), b: -1, read: true},
+		{sub: "coreT3", p: coreT3(), b: -1, read: true},
+		{sub: "coreM", p: coreM(), b: -1, read: true},
+		{sub: "coreC3", p: coreC3(), b: -1, read: true},
+		{sub: "many", b: -1, read: true, gen: genMany},
+		{sub: "ball", p: fullProfile(thorough), b: bound, read: true},
+		{sub: "wball", p: writeBall(thorough), b: bound},
+		{sub: "wide", p: wideProfile(false), b: 2, read: true},
+		{sub: "wwide", p: wideProfile(true), b: 2, styleVar: true},
 	}
 	if thorough {
-		st = append(st, stage{"ball4", fullProfile(false), 4, true})
+		st = append(st, stage{sub: "ball4", p: fullProfile(false), b: 4, read: true})
+		st = append(st, stage{sub: "wide3", p: wideProfile(false), b: 3, read: true})
+		st = append(st, stage{sub: "wwide3", p: wideProfile(true), b: 3, styleVar: true})
 	}
 	return st
 }
@@ -399,7 +727,7 @@ func run(c *core.Ctx) {
 		bound = 4
 	}
 	var cs Case
-	visit := func(sub string, read bool) func(x *explore.C) bool {
+	visit := func(sub string, read, styleVar bool) func(x *explore.C) bool {
 		return func(x *explore.C) bool {
 			if !c.Mine() {
 				return true
@@ -421,7 +749,11 @@ func run(c *core.Ctx) {
 					c.Violate("read", key, msg, cs, dev*1000+len(cs.Doc.Bytes(cs.Render)))
 				}
 			}
-			for variant := 0; variant < 2; variant++ {
+			nvar := 2
+			if styleVar {
+				nvar = 3
+			}
+			for variant := 0; variant < nvar; variant++ {
 				key, msg, out := CheckWrite(cs.Doc, variant)
 				nt := uint64(0)
 				if dev > 0 {
@@ -442,8 +774,11 @@ func run(c *core.Ctx) {
 		}
 	}
 	for _, st := range stages(thorough) {
-		p := st.p
-		n := explore.Explore(st.b, func(x *explore.C) { cs = gen(x, p) }, visit(st.sub, st.read))
+		p, g := st.p, st.gen
+		if g == nil {
+			g = func(x *explore.C) Case { return gen(x, p) }
+		}
+		n := explore.Explore(st.b, func(x *explore.C) { cs = g(x) }, visit(st.sub, st.read, st.styleVar))
 		if c.Shard == 0 {
 			c.Extra["cases_"+st.sub] = n
 		}
@@ -454,17 +789,19 @@ func run(c *core.Ctx) {
 func init() {
 	core.Register(&core.Prop{
 		ID: "C02", Level: "exploration",
-		Rule: "a case = (ground-truth WebVTT model, rendering choices) chosen by the E1 explorer: four full cartesian products of small grammars (A text structure: lines x runs x nested tag walks x inline timestamps x voice x lazy/unterminated/voice-closing tags and timestamp placement; B cue header: cue count x identifier x comments x every subset of the five settings x region reference x EOL x mm:ss.ttt x tab/space x comment block form; C blocks: 0..2 regions with every subset of attributes x region reference x STYLE blocks x timestamp map x EOL x BOM x header text x blank lines x EOF form; W writer: arbitrary tag stacks on neighbouring runs x inline timestamps) plus every document within B deviations from the baseline over ALL model and rendering choice points; read direction: ReadFromWebVTT(render(model)) must denote the model; write direction (two ways of building the library value: attribute holders allocated / nil when empty): WriteToWebVTT(model) must start with WEBVTT, number the cues 1..n, define every referenced region earlier in the file, and denote the model to the library reader and to an independent decoder; non-trivial = non-baseline case, distinct by (denotation, rendering) resp. (denotation, build variant)",
+		Rule: "a case = (ground-truth WebVTT model, rendering choices) chosen by the E1 explorer. STRUCTURE: full cartesian products of small grammars (A text structure: lines x runs x nested tag walks x inline timestamps x voice x lazy/unterminated/voice-closing tags and timestamp placement; B cue header: cue count x identifier x comments x every subset of the five settings x region reference x EOL x mm:ss.ttt x tab/space x comment block form; C blocks: 0..2 regions with every subset of attributes x region reference x STYLE blocks x timestamp map x EOL x BOM x header text x blank lines x EOF form; W writer: arbitrary tag stacks on neighbouring runs x inline timestamps) plus every document within 3 deviations from the baseline over all structural choice points. VALUES: every field ranges over a boundary-complete table, each table inside one full product with the dimensions it interacts with - S cue settings (align 6 values incl. legacy middle, line 7 incl. 0 / -1 / 100% / 10%,start / 10.5%, position 5, size 4 incl. 0% and 33.3%, vertical 2) x order x region reference; R1 one region (4 id tables incl. hyphen/underscore/digits/non-ASCII/a setting name as id, width 4, lines 1/3/100, both anchors 4 values) x attribute order x reference; R2 two regions whose ids share a prefix (r1, r10) x which one each of 1..2 cues refers to x layout; V 11 voices (dot, digits, non-ASCII, '&', '/', apostrophe, lower/upper case, 302 bytes) on 1..2 lines x 4 spellings of the voice tag x class x </v> x escaping; E 25 text atoms (digits only, RTL and directional marks, combining mark, emoji, tab, literal character references, lines starting with NOTE / STYLE / Region:) x 3 equivalent escapings (named, &gt; &nbsp; &lrm; &rlm;, numeric) x 1..2 runs plain or bold; G/G2 15 tags (c without / with 1-3 classes, classes with hyphen, underscore, digit, non-ASCII, classes on b, ruby/rt, lang with subtags) nested in each other resp. on neighbouring runs; K 6 comment values (digits only, non-ASCII, ':' '=', three lines) x NOTE followed by space / tab / two spaces / line break x one block or one per line x an empty NOTE block x identifier present, absent or non-numeric, 1..2 cues; I identifiers (k+1, absent, 42, the NEXT cue's number, 100, 2^31-1, 2^32) x 0-2 leading zeros x non-numeric identifier text; T2 19 instants (.001 .010 .100 .999, 59 s / 59 min, 9/10/99/100/999/1000/9999 hours) x 5 end forms x inline timestamp at start+1 / start+400 / end-1 x hours omitted on all / only the start / only the end / only the inline timestamp x zero-padded hours; T3 white space around the arrow (space, tab, two spaces) x before the settings x time forms; M 10 timestamp maps (MPEGTS 0, 1, 2^33-1; LOCAL up to 999:59:59.999) x key order x LOCAL form x header text (incl. non-ASCII, a second WEBVTT) x legacy Kind:/Language: header lines x BOM x EOL; C3 four kinds of STYLE content; many: documents of 9, 10, 11, 99, 100, 101, 256, 257, 1000 cues x 4 identifier schemes x layout - plus every document within 2 (thorough: 3) deviations from the baseline over ALL wide tables and all 27 rendering choice points at once. Read direction: ReadFromWebVTT(render(model)) must denote the model; write direction (three ways of building the library value: attribute holders allocated / nil when empty / settings and region attributes on the referenced Style, where the value-focused stages are concerned): WriteToWebVTT(model) must start with WEBVTT, number the cues 1..n, define every referenced region earlier in the file, and denote the model to the library reader and to an independent decoder; the writer ball also contains start = end and inline timestamps equal to the cue start / end. A violation that disappears when one listed trigger value is replaced by a neutral one, persists with that trigger alone and (where the defect has an exact model) equals the predicted answer is reported under that trigger's narrow key. Non-trivial = non-baseline case, distinct by (denotation, rendering) resp. (denotation, build variant)",
 		Scope: map[core.Tier]string{
-			core.Quick:    "core products A1 (1 line, <=2 runs), A2 (2 lines), both 3 tags x depth<=2 x timestamp x voice x 16 tag renderings; A3 (2 cues, tag leakage); B1 (1 cue: 32 settings subsets x id (zero-padded or not) x comments x region ref x EOL x short time x separator x comment form); B2 (2 cues: id/comment/region attachment); T (15 instants up to 999 h x 4 end forms x inline timestamp x short time); C1 (<=2 regions x 32 attribute subsets x region ref); C2 (STYLE blocks x timestamp map x header forms); W (2 runs, 6 tags, depth<=2, arbitrary stacks) + deviation balls B=3 for the read and the write generator (<=2 cues, <=2 lines, <=2 runs, 6 tags, depth<=3, 17 text atoms, 15 instants, 17 rendering choice points)",
-			core.Thorough: "core products as quick with A1 <=3 runs / 4 tags, A2 4 tags, W depth<=3; deviation balls B=3 on the larger profile (<=3 cues, <=3 lines, <=3 runs) and B=4 on the quick profile",
+			core.Quick:    "core products A1 (1 line, <=2 runs), A2 (2 lines), both 3 tags x depth<=2 x timestamp x voice x 16 tag renderings; A3 (2 cues, tag leakage); B1 (1 cue: 32 settings subsets x id (zero-padded or not) x comments x region ref x EOL x short time x separator x comment form); B2 (2 cues: id/comment/region attachment); T (15 instants up to 999 h x 4 end forms x inline timestamp x short time); C1 (<=2 regions x 32 attribute subsets x region ref); C2 (STYLE blocks x timestamp map x header forms); W (2 runs, 8 tags, depth<=2, arbitrary stacks); value products S 20160, R1 16000, R2 1728, V 6336, E 9525, G 1928, G2 4336, K 4992, I 2520, T2 6080, T3 13824, M 4800, C3 504, many 648 cases; deviation balls B=3 for the read and the write generator on the structural profile (<=2 cues, <=2 lines, <=2 runs, 8 tags, depth<=3, 17 text atoms, 15 instants, 17 rendering choice points) and B=2 on the wide profile (all value tables, 27 rendering choice points)",
+			core.Thorough: "core products as quick with A1 <=3 runs / 4 tags, A2 4 tags, W depth<=3; deviation balls B=3 on the larger structural profile (<=3 cues, <=3 lines, <=3 runs), B=4 on the quick structural profile, B=3 on the wide profile (read and write)",
 		},
 		Assumptions: []string{
 			"Go toolchain and standard library",
 			"independent reference codec engine/ref/vtt",
 			"outer white space of a payload line is outside the denotation (the reader trims lines; the format's rendering ignores it)",
 			"the voice of a line is the annotation of the first <v> start tag on that line (the library's one-voice-per-line model); a voice span is never left open across a line boundary by the renderer's </v> option",
-			"comments denote the flat list of their lines; STYLE blocks denote the flat list of their (trimmed) lines in file order",
+			"comments denote the flat list of their lines without outer white space (NOTE is followed by one or more blanks or a line break; the format does not carry them); an empty NOTE block denotes no line; STYLE blocks denote the flat list of their (trimmed) lines in file order",
+			"a non-numeric cue identifier denotes 'no numeric identifier' (Item.Index 0); legacy metadata header lines (Kind:, Language:) directly after the signature denote nothing",
+			"left out as not well-formed or outside the library's model: '-->' inside text/comments, a setting given twice, a bare '&' in text, upper-case tag names, region lines=0 (the model's 'absent'), several blanks between legacy Region: settings, STYLE content whose last line does not end with '}' (the reader's documented heuristic for blank lines inside CSS), block keywords as cue identifiers or inside comment blocks, voices containing '>' or runs of blanks",
 			"regions use the legacy single-line 'Region: id=...' syntax, the only one the library reads or writes",
 		},
 		Plain: run, Replay: replay,
